@@ -55,9 +55,19 @@ def run_env(ctx, name, cfg):
         for fld, spec in (("reward", env.reward_spec), ("discount", env.discount_spec)):
             v = getattr(o, fld)
             ok = tuple(v.shape) == tuple(spec.shape) and v.dtype == spec.dtype
+            wit = None
+            if not ok:  # an aval mismatch fails for EVERY input: run the real function once natively and record what it returned
+                try:
+                    real = getattr(env.reset(key)[1] if tag == "reset" else env.step(state, a)[1], fld)
+                    real = jnp.asarray(real)
+                    if tuple(real.shape) != tuple(spec.shape) or real.dtype != spec.dtype:
+                        wit = {"input": "reset(PRNGKey(0))" if tag == "reset" else "step(reset(PRNGKey(0)).state, action_spec.generate_value())",
+                               "returned": [list(real.shape), str(real.dtype)], "declared": [list(spec.shape), str(spec.dtype)]}
+                except Exception as ex:
+                    wit = None
             ctx.structural(f"{name}.{tag}@{cfg}/C03.{fld}_aval_matches_spec", ok, "jax.eval_shape",
                            detail={"aval": [list(v.shape), str(v.dtype)], "spec": [list(spec.shape), str(spec.dtype)]},
-                           targets=[getattr(type(env), tag)])
+                           targets=[getattr(type(env), tag)], witness=wit)
         ctx.structural(f"{name}.{tag}@{cfg}/C03.step_type_is_int8_scalar", tuple(o.step_type.shape) == () and o.step_type.dtype == jnp.int8,
                        "jax.eval_shape")
     ctx.prove(f"{name}.reset@{cfg}", (key,), reset_clauses(env), targets=[type(env).reset], while_bound=4)
